@@ -1095,3 +1095,123 @@ func (x *runner) runFlushLoad(sp Spec) {
 	res := x.loadRegions(b, "LoadRegions", len(final), nil)
 	x.judgeLoad(sp, "regions", res, final, nil, false, map[string]interface{}{"phase": "after the writers stopped", "family": "flushload"})
 }
+
+// runLifecycle: the region storage is created with a cancellable parent context (the server
+// context); pd-server cancels it BEFORE it closes the server. sp.Hist says where the parent is
+// cancelled, sp.W is the number of regions still pending in the batch at that moment:
+//
+//	cancel-before-close   save, cancel, Close            -> reopen, full load
+//	cancel-before-flush   save, cancel, Flush, full load -> Close, reopen, full load
+//	cancel-between-saves  save, cancel, save more, Close -> reopen, full load
+//	cancel-after-close    save, Close, cancel (control)  -> reopen, full load
+//
+// Once Flush / Close has returned nil every saved region has to be loaded exactly once.
+func (x *runner) runLifecycle(sp Spec) {
+	r := x.r
+	rng := rand.New(rand.NewSource(sp.Seed))
+	b, err := newBackend("regionstorage")
+	if err != nil {
+		r.Inconclusive("backend: %v", err)
+		return
+	}
+	defer b.close()
+	pending := sp.W
+	ids := genIDs(rng, sp.IDGen, sp.N+2*pending)
+	baseIDs, pendIDs, lateIDs := ids[:sp.N], ids[sp.N:sp.N+pending], ids[sp.N+pending:]
+	must := map[uint64]item{}
+	ver := 0
+	save := func(id uint64) bool {
+		ver++
+		reg := genRegion(rng, id, ver, "small", 0, 1)
+		if err := b.st.SaveRegion(reg); err != nil {
+			r.Inconclusive("SaveRegion: %v (%s)", err, sp)
+			return false
+		}
+		bs, _ := reg.Marshal()
+		must[id] = item{Bytes: bs}
+		r.Count("ops_save_region", 1)
+		return true
+	}
+	for _, id := range baseIDs {
+		if !save(id) {
+			return
+		}
+	}
+	if err := b.st.Flush(); err != nil {
+		r.Inconclusive("Flush: %v", err)
+		return
+	}
+	// the batch that is pending when the context is cancelled: new regions and newer versions of flushed ones
+	for i, id := range pendIDs {
+		if i%4 == 3 && len(baseIDs) > 0 {
+			id = baseIDs[rng.Intn(len(baseIDs))]
+		}
+		if !save(id) {
+			return
+		}
+	}
+	extra := map[string]interface{}{"family": "lifecycle", "parent_context_cancelled": sp.Hist, "pending_regions_at_cancel": pending}
+	closeReopen := func() bool {
+		if err := b.closeReopenRS(); err != nil {
+			r.Violation("region-storage-close-or-reopen-fails", fmt.Sprintf("Close / reopen of the region storage failed: %v", err), map[string]interface{}{"spec": sp})
+			return false
+		}
+		r.Count("ops_close_reopen", 1)
+		return true
+	}
+	fullLoad := func(phase string) {
+		extra["phase"] = phase
+		res := x.loadRegions(b, "LoadRegions", len(must), nil)
+		x.judgeLoad(sp, "regions", res, must, nil, false, extra)
+	}
+	switch sp.Hist {
+	case "cancel-before-close":
+		b.cancel()
+		r.Count("lifecycle_parent_cancelled_with_pending_batch", 1)
+		if !closeReopen() {
+			return
+		}
+		fullLoad("after cancel, Close (returned nil), reopen")
+	case "cancel-before-flush":
+		b.cancel()
+		r.Count("lifecycle_parent_cancelled_with_pending_batch", 1)
+		if err := b.st.Flush(); err != nil {
+			// an error would be honest: nothing is promised then
+			r.Count("lifecycle_flush_after_cancel_returned_error_not_judged", 1)
+			return
+		}
+		fullLoad("after cancel, Flush (returned nil), on the live storage")
+		if !closeReopen() {
+			return
+		}
+		fullLoad("after cancel, Flush, Close, reopen")
+	case "cancel-between-saves":
+		b.cancel()
+		r.Count("lifecycle_parent_cancelled_with_pending_batch", 1)
+		for _, id := range lateIDs[:1+rng.Intn(len(lateIDs))] {
+			if !save(id) { // heartbeats still arrive while the server is stopping
+				return
+			}
+		}
+		if !closeReopen() {
+			return
+		}
+		fullLoad("after cancel, more saves, Close (returned nil), reopen")
+	case "cancel-after-close":
+		if err := b.st.Close(); err != nil {
+			r.Violation("region-storage-close-or-reopen-fails", fmt.Sprintf("Close failed: %v", err), map[string]interface{}{"spec": sp})
+			return
+		}
+		b.cancel()
+		b.rs = nil
+		if err := b.openRS(b.rsDir); err != nil {
+			r.Violation("region-storage-close-or-reopen-fails", fmt.Sprintf("reopen failed: %v", err), map[string]interface{}{"spec": sp})
+			return
+		}
+		fullLoad("control: Close, then cancel, reopen")
+	default:
+		r.Inconclusive("unknown lifecycle history %q", sp.Hist)
+		return
+	}
+	r.Count("lifecycle_cases_judged", 1)
+}
